@@ -189,6 +189,11 @@ func (gz *GzipDecompressor) ParseFooter(p []byte) (blobPayloadSize, tocOffset, t
 	if err != nil {
 		return 0, 0, 0, fmt.Errorf("legacy: failed to parse toc offset: %w", err)
 	}
+	if tocOffset < 0 {
+		// ParseInt accepts a sign; a negative offset would be taken for "TOC is
+		// stored outside of the blob", which this format doesn't support.
+		return 0, 0, 0, fmt.Errorf("invalid toc offset %d", tocOffset)
+	}
 	return tocOffset, tocOffset, 0, nil
 }
 
@@ -229,6 +234,9 @@ func (gz *LegacyGzipDecompressor) ParseFooter(p []byte) (blobPayloadSize, tocOff
 	tocOffset, err = strconv.ParseInt(string(extra[:16]), 16, 64)
 	if err != nil {
 		return 0, 0, 0, fmt.Errorf("legacy: failed to parse toc offset: %w", err)
+	}
+	if tocOffset < 0 {
+		return 0, 0, 0, fmt.Errorf("legacy: invalid toc offset %d", tocOffset)
 	}
 	return tocOffset, tocOffset, 0, nil
 }
